@@ -409,6 +409,15 @@ func evaluate(o *hxlib.Out, cf *hxlib.CommonFlags, cfg *sessCfg, so *sessOut) {
 	}
 	if cfg.mode == "snap" {
 		checkBatch(so.snaps, "snapshot")
+		// every batch the offline phase dealt was a whole number of 64-bit
+		// words (nothing consumed yet: triples asked for = 64 * words held)
+		for p := 0; p < n && p < len(so.dealtN); p++ {
+			if so.dealtN[p] == 64*uint64(so.snaps[p].Words) {
+				o.Count("pools_dealt_whole_words")
+			} else {
+				o.Count("pools_dealt_partial_words")
+			}
+		}
 	}
 	dw := (cfg.drain + 63) / 64
 	drainedOK := true
